@@ -180,7 +180,7 @@ Fixpoint map_res {A B} (f : A -> res B) (l : list A) : res (list B) :=
 Definition encode_oid (arcs : list Z) : res bytes :=
   match arcs with
   | [] => Raise ValueError                 (* int("") *)
-  | [_] => Raise IndexError                (* cmps[1] *)
+  | [a] => if a >? 39 then Raise ValueError else Raise IndexError   (* cmps[0] > 39 is tested before cmps[1] is indexed *)
   | a :: b :: rest =>
     if (a >? 39) || (b >? 39) then Raise ValueError else
     let* ds := map_res oid_arc ((40 * a + b) :: rest) in Ok (concat ds)
